@@ -1,23 +1,49 @@
 #!/bin/bash
-# False-alarm regression: apply each property-preserving bundle under benign/ to /repo, run every
-# quick check (all must exit 0), restore /repo. Writes evidence/benign.json.
+# False-alarm regression: apply each property-preserving bundle under benign/ to a scratch worktree of
+# /repo's HEAD, run every quick check there with a private copy of this directory (all must exit 0).
+# LANES (default 4) worktrees work in parallel; everything scratch lives under /tmp/benignlane and is
+# removed at the end; /repo itself is not touched (it must be clean: the worktrees are made from its
+# HEAD). Writes evidence/benign.json.
 cd /verif
+LANES=${LANES:-4}
+S=/tmp/benignlane
 [ -n "$(git -C /repo status --porcelain --untracked-files=no)" ] && { echo "/repo not clean"; exit 2; }
-echo '{"benign_bundles": [' > evidence/benign.json.tmp; first=1; bad=0
-for d in benign/*/; do
-  b=$(basename $d)
-  git -C /repo apply $(realpath $d)/patch.diff || { echo "$b does not apply"; exit 2; }
-  alarms=""
-  for p in C01 C02 C03 C04 C05 C06 C07 C08 C09 C10 C11 C12 C13 C14 C15 C16 C17 C18 C19 C20; do
-    ./check $p quick >/dev/null 2>&1; rc=$?
-    [ $rc -ne 0 ] && { alarms="$alarms $p:$rc"; bad=1; }
-  done
-  git -C /repo checkout -- .
-  [ $first = 0 ] && echo ',' >> evidence/benign.json.tmp; first=0
-  printf '{"bundle":"%s","alarms":"%s"}' "$b" "$alarms" >> evidence/benign.json.tmp
-  echo "$b alarms:[$alarms]"
+rm -rf $S; mkdir -p $S
+ls -d benign/*/ | sed 's|/$||' > $S/all.txt
+for k in $(seq 1 $LANES); do
+  git -C /repo worktree add -q --detach $S/r$k HEAD || exit 2
+  rsync -a --exclude .cache --exclude replays --exclude evidence /verif/ $S/v$k/
+  mkdir -p $S/v$k/evidence
+  awk -v k=$k -v n=$LANES 'NR%n==k%n' $S/all.txt > $S/list$k.txt
+  (
+    export SEEDED_REPO=$S/r$k SEEDED_VERIF=$S/v$k SEEDED_NO_RESTORE=1
+    while read d; do
+      b=$(basename $d)
+      res=$(/verif/tools_seeded.sh runall /verif/$d quick 2>&1)
+      alarms=$(echo "$res" | grep "^caught-by:" | sed 's/^caught-by://')
+      herr=$(echo "$res" | grep -c "harness error\|does not apply\|not clean")
+      [ "$herr" != 0 ] && alarms="$alarms HARNESS-ERROR"
+      printf '{"bundle":"%s","alarms":"%s"}\n' "$b" "$alarms" >> $S/out$k.jsonl
+      echo "$b alarms:[$alarms]"
+    done < $S/list$k.txt
+  ) &
 done
-echo '], "note":"each bundle applied to /repo, all 20 quick checks run (exit 0 expected), /repo restored"}' >> evidence/benign.json.tmp
-mv evidence/benign.json.tmp evidence/benign.json
-./check --setup >/dev/null
-exit $bad
+wait
+python3 - <<PY
+import json,glob,sys
+rows=[]
+for f in glob.glob('$S/out*.jsonl'):
+    rows+= [json.loads(l) for l in open(f) if l.strip()]
+rows.sort(key=lambda r:(len(r['bundle']),r['bundle']))
+json.dump({"benign_bundles":rows,
+ "note":"each bundle applied to a scratch worktree of /repo's HEAD, all 20 quick checks run against it with a private copy of /verif (exit 0 expected)"},
+ open('/verif/evidence/benign.json','w'),indent=1)
+bad=[r for r in rows if r['alarms'].strip()]
+print(len(rows),'bundles;',len(bad),'with alarms',[ (r['bundle'],r['alarms']) for r in bad])
+open('$S/rc','w').write('1' if bad else '0')
+PY
+rc=$(cat $S/rc)
+for k in $(seq 1 $LANES); do git -C /repo worktree remove --force $S/r$k; done
+git -C /repo worktree prune
+rm -rf $S
+exit $rc
